@@ -63,6 +63,8 @@ pub struct Profile {
     /// generate atomic-access storage textures
     pub atomic_tex: bool,
     pub multisampled: bool,
+    /// after generating entry points, make every resource reachable from at least one entry point
+    pub use_all_resources: bool,
 }
 
 impl Profile {
@@ -95,6 +97,7 @@ impl Profile {
             f64_vertex: true,
             atomic_tex: true,
             multisampled: true,
+            use_all_resources: false,
         }
     }
 }
@@ -1055,6 +1058,21 @@ pub fn gen_shader(ch: &mut Ch, p: &Profile) -> Shader {
                 gen_block(ch, &cx, p.stmts, 0)
             };
             sh.entries.push(Entry { stage: *stage, name, params, result, wg, body });
+        }
+    }
+    if p.use_all_resources && !sh.entries.is_empty() {
+        let reached: std::collections::BTreeSet<usize> = crate::expect::entry_reach(&sh).into_iter().flatten().collect();
+        for gi in 0..sh.globals.len() {
+            if reached.contains(&gi) || sh.globals[gi].binding.is_none() {
+                continue;
+            }
+            let opts = access_options(&sh, gi);
+            if opts.is_empty() {
+                continue;
+            }
+            let a = ch.pick(&opts).clone();
+            let ei = ch.idx(sh.entries.len());
+            sh.entries[ei].body.push(Stmt::Acc(a));
         }
     }
     sh
